@@ -251,3 +251,47 @@ M('c16-truncated-header-raw-comparison', 'C16', 'R9', ST,
         resp.last_modified = last_modified
 """, """        resp.last_modified = last_modified.replace(microsecond=0)
 """)
+
+# ---- wave 7
+# R5 (shared with C02 R2): the rebuild of the combined table is evaluated for both values of the option
+M('c16-rebuild-reverse-whole-table-static-first', 'C16', 'R5', 'falcon/app.py',
+  """        if self._sink_before_static_route:
+            self._sink_and_static_routes = tuple(self._sinks + self._static_routes)  # type: ignore[operator]
+        else:
+            self._sink_and_static_routes = tuple(self._static_routes + self._sinks)  # type: ignore[operator]
+""", """        routes = self._sinks + self._static_routes  # type: ignore[operator]
+        if not self._sink_before_static_route:
+            # NOTE: Static routes take precedence over sinks in this mode.
+            routes.reverse()
+        self._sink_and_static_routes = tuple(routes)
+""")
+M('c16-rebuild-reversed-static-when-static-first', 'C16', 'R5', 'falcon/app.py',
+  """        else:
+            self._sink_and_static_routes = tuple(self._static_routes + self._sinks)  # type: ignore[operator]
+""", """        else:
+            self._sink_and_static_routes = (*reversed(self._static_routes), *self._sinks)
+""")
+
+# R10: the bounds of a Range spec are ordered as numbers
+M('c16-range-inverted-check-on-text', 'C16', 'R10', 'falcon/request.py',
+  """                first_num, last_num = (int(first), int(last))
+                if last_num < first_num:
+                    raise ValueError()
+""", """                if last < first:
+                    raise ValueError()
+                first_num, last_num = (int(first), int(last))
+""", also=('C09',))
+M('c16-range-order-check-on-text-negated', 'C16', 'R10', 'falcon/request.py',
+  """                first_num, last_num = (int(first), int(last))
+                if last_num < first_num:
+                    raise ValueError()
+""", """                if not first <= last:
+                    raise ValueError()
+                first_num, last_num = (int(first), int(last))
+""", also=('C09',))
+M('c16-range-compares-raw-names-after-conversion', 'C16', 'R10', 'falcon/request.py',
+  """                if last_num < first_num:
+                    raise ValueError()
+""", """                if last.strip() < first.strip():
+                    raise ValueError()
+""", also=('C09',))
